@@ -144,6 +144,8 @@ class Indicator(_DomainObject):
     ])
 
     def _check_object_constraints(self):
+        super(Indicator, self)._check_object_constraints()
+
         errors = run_validator(self.get('pattern'), '2.0')
         if errors:
             raise InvalidValueError(self.__class__, 'pattern', str(errors[0]))
